@@ -283,3 +283,13 @@ Definition make_auth_basic (token : list N) : option (list N * list N) :=
   | None => None
   | Some cred => if utf8_valid cred then split_colon cred else None
   end.
+
+(* socks5_forwarder.rs: what the outcome of the dialogue becomes for the client of the endpoint:
+   (status, X-Warning code) of the response to its CONNECT (see Model/TunnelGate.v for the table) *)
+Definition socks_result (o : s_outcome) : N * N :=
+  match o with
+  | OTcp => (200, 0)
+  | OFailure c => if (c =? 3) || (c =? 4) then (502, 301) else if c =? 6 then (502, 302) else (502, 300)
+  | OIo | OProtocol => (502, 300)
+  | OAuth => (407, 0)
+  end.
